@@ -164,6 +164,15 @@ def check_obligations(prop, allowed=frozenset()):
             except FileNotFoundError:
                 pass
         ok, log = make([f"props/{prop}.vo"])
+        if ok:
+            # second pass: recompile the props file alone so that the log holds exactly its own
+            # Print Assumptions blocks (dependencies rebuilt in the first pass print theirs too)
+            for ext in ("vo", "vok", "vos", "glob"):
+                try:
+                    os.remove(os.path.join(COQ, f"props/{prop}.{ext}"))
+                except FileNotFoundError:
+                    pass
+            ok, log = make([f"props/{prop}.vo"])
     res["log_tail"] = log[-3000:]
     if not ok:
         res["broken"] = err_locus(log) or {"file": pf, "message": log[-800:]}
